@@ -91,6 +91,8 @@ def _blame(exc):
     verif = os.path.realpath(VERIF) + os.sep
     who, where = None, None
     for fs in traceback.extract_tb(exc.__traceback__):
+        if fs.filename.startswith('<'):
+            continue          # frozen / generated code ('<frozen codecs>', '<string>') belongs to neither side
         fn = os.path.realpath(fs.filename)
         if fn.startswith(repo):
             who, where = 'repo', (os.path.relpath(fn, repo), fs.name)
